@@ -1042,7 +1042,8 @@ Proof.
       apply Inv_start; [congruence|apply append_doc_live; simpl; auto|congruence].
     + destruct (append_doc_fields s (BPi tg d)) as (E1 & E2 & E3 & E4).
       apply Inv_start; [congruence|apply append_doc_live; simpl; auto|congruence].
-    + destruct (append_doc_fields s (BDoctype (ostr n) (ostr p) (ostr sy))) as (E1 & E2 & E3 & E4).
+    + destruct (existsb is_doctype (tdoc s)); [apply Inv_start; auto|].
+      destruct (append_doc_fields s (BDoctype (ostr n) (ostr p) (ostr sy))) as (E1 & E2 & E3 & E4).
       apply Inv_start; [congruence|apply append_doc_live; simpl; auto|congruence].
     + apply Inv_end; [reflexivity|]. apply (Live_weaken s L).
   - (* Main *)
@@ -1155,6 +1156,11 @@ Proof.
   destruct (tphase s); try congruence; destruct I as [(P & F & D & C & N) _]; split; auto;
     unfold nss_ok, maps_of, ctx_of in N; rewrite map_map in N; exact N.
 Qed.
+
+(* C04, xml tree builder: no expect()/unwrap()/panic site of XmlTreeBuilder is reached, whatever the token stream
+   (the model records such a site as [tpanic]) *)
+Corollary tree_builder_never_panics : forall rts, tpanic (run (map tokenize rts)) = false.
+Proof. intro rts. exact (proj1 (stack_invariant rts)). Qed.
 
 (* ------------------------------------------------- from the maps to the spec *)
 
